@@ -114,6 +114,31 @@ def plan_C15(ctx):
     trace_stage(ctx, h, ["--record", str(400 if ctx.quick else 6000)], "Trace_C15.tla", "Trace_C15.cfg")
 
 
+# ----------------------------------------------------------------------------- C17
+def plan_C17(ctx):
+    b = vcore.build()
+    bs = vcore.build(san=True)
+    h, hs = hbin(b, "h_refs"), hbin(bs, "h_refs")
+    ctx.rule = ("A: every text of <= MaxAtoms atoms over the atom alphabet of Gen_C17 (markers, separators, entity names "
+                "incl. missing / empty-term / manual-form ones, tags, offsets incl. out-of-range, 1-4 byte plain text, "
+                "whole references) -> ExtractAll, Resolve (text, ranges), OutputRefs, Referals, TranslateRaw compared with "
+                "Refs.tla; every history of <= MaxOps Insert/EraseIn calls on 4 resolved pool texts -> contract + alignment; "
+                "run in the ASan+UBSan build in forked batches (a fault is a violation). non-trivial = text with >= 1 valid "
+                "reference or history with >= 1 call. B: 10-30 atom random texts and random range operations recorded from "
+                "the real manager, validated by Trace_C17.")
+    ctx.assumptions = ["texts with an unterminated '@{' marker are compared at drift level only (the statement does not say whether inner/later markers count)",
+                       "placeholder wording for unresolvable references is not compared; the default (identity) text processor is used",
+                       "memory safety is observed under ASan+UBSan on model-generated inputs, not proved"]
+    cfgs = ["Gen_C17_q.cfg", "Gen_C17_q2.cfg"] if ctx.quick else ["Gen_C17_t.cfg", "Gen_C17_t2.cfg"]
+    ctx.constants = {c: open(os.path.join(vcore.TLA, c)).read().split("SPECIFICATION")[0].split() for c in cfgs}
+    for c in cfgs:
+        ctx.replay("Gen_C17.tla", c, hs, tag="asan-" + c[:-4], timeout=3000, xss="64m")
+    ctx.exhaustive = True
+    n = 300 if ctx.quick else 4000
+    trace_stage(ctx, h, ["--record", str(n)], "Trace_C17.tla", "Trace_C17.cfg")
+    trace_stage(ctx, hs, ["--record", str(n // 2)], "Trace_C17.tla", "Trace_C17.cfg", tag="record-asan")
+
+
 def save_trace(ctx, trace, prefix, tag=""):
     """keep the prefix of a rejected trace (up to and including the offending event) as the replay artefact"""
     d = os.path.join(vcore.BUILD, "replays")
@@ -132,11 +157,13 @@ PLANS = {
     "C20": plan_C20,
     "C16": plan_C16,
     "C15": plan_C15,
+    "C17": plan_C17,
 }
 
-HARNESS_OF = {"C14": "h_graph", "C20": "h_strings", "C16": "h_sdcompact", "C15": "h_values"}
+HARNESS_OF = {"C14": "h_graph", "C20": "h_strings", "C16": "h_sdcompact", "C15": "h_values", "C17": "h_refs"}
 TRACE_SPEC_OF = {"C14": ("Trace_C14.tla", "Trace_C14.cfg"), "C20": ("Trace_C20.tla", "Trace_C20.cfg"),
-                 "C16": ("Trace_C16.tla", "Trace_C16.cfg"), "C15": ("Trace_C15.tla", "Trace_C15.cfg")}
+                 "C16": ("Trace_C16.tla", "Trace_C16.cfg"), "C15": ("Trace_C15.tla", "Trace_C15.cfg"),
+                 "C17": ("Trace_C17.tla", "Trace_C17.cfg")}
 
 
 def replay(pid, path):
